@@ -478,7 +478,7 @@ def build_response(spec, envelope=None):
                 measures["valid_count_unweighted"] = {
                     "data": [_as_json_number(x) for x in vu.ravel()],
                     "n_missing": nmiss, "metadata": md}
-                if spec.weight is not None:
+                if spec.weight is not None and "vc_unweighted_only" not in spec.measures:
                     measures["valid_count_weighted"] = {
                         "data": _flat(vw), "n_missing": nmiss, "metadata": md}
         result["n"] = int(N)
@@ -597,6 +597,10 @@ class Oracle:
         self.xok = None
         if xv is not None and spec.numarr is None and "valid_counts" in spec.measures:
             self.xok = ~np.isnan(xv.x)
+            if "vc_unweighted_only" in spec.measures:
+                # a weighted response that carries unweighted valid counts only: they are
+                # the counts every counting measure of the analysis is computed from
+                self.w = np.ones(self.N)
 
     # -- structure -------------------------------------------------------------------
     @property
